@@ -4,7 +4,7 @@ cd "$(dirname "$0")/.."
 root="${SEEDROOT:-/tmp/seed}"
 props=("$@"); [ ${#props[@]} -eq 0 ] && props=($(ls "$root"))
 for p in "${props[@]}"; do
-  for v in a b c d e f g h i j k l m n o p; do
+  for v in a b c d e f g h i j k l m n o p q r s t; do
     src=$root/$p/out/$v
     [ -f "$src/patch.diff" ] || continue
     [ -f "seeded/$p-$v/verdict.json" ] && [ -z "${FORCE:-}" ] && continue
